@@ -23,8 +23,9 @@ Model of retention / deletion (C14), mirroring pkg/retention/retention.go as it 
     then the loop `if size < volumeToDelete { mark; volumeToDelete -= size } else { break }` whose
     `break` only leaves the `switch`, i.e. the loop continues with the next entry.
     `sort.Slice` is not stable in general; for ≤ 12 elements Go's pdqsort is an insertion sort and hence
-    stable, and without ties every sort gives the same result.  The model uses a stable sort; the
-    correspondence generator produces ties only in inputs of ≤ 12 entries.
+    stable, and without ties every sort gives the same result.  The model uses the stable insertion
+    sort; the correspondence generator produces ties only in inputs of ≤ 12 entries, and never between
+    two metrics segments (metricmeta.json is read into a Go map, so their input order is random).
   * `doInodeBasedDeletion` (l.429-544), selection loop only (not tied: it depends on statfs).
 
 Keys are abstract naturals (one per SegmentKey / MSegmentDir, assumed distinct as in the Go maps).
@@ -169,7 +170,15 @@ def trueTimeMs (m : Meta) : Nat :=
   | .log => m.latest
   | .metrics => m.latest * 1000
 
-def volSort (l : List Meta) : List Meta := l.mergeSort (fun a b => decide (volKey a ≤ volKey b))
+/-- insert before the first element whose key is not smaller -/
+def insertBy (x : Meta) : List Meta → List Meta
+  | [] => [x]
+  | y :: r => if volKey x ≤ volKey y then x :: y :: r else y :: insertBy x r
+
+/-- the stable sort by `volKey` (insertion sort; equal keys keep their input order) -/
+def volSort : List Meta → List Meta
+  | [] => []
+  | x :: r => insertBy x (volSort r)
 
 /-- the marking loop; the `break` in the `else` branch leaves only the `switch`, so the loop goes on -/
 def volLoop : Nat → List Meta → List Meta
@@ -181,7 +190,12 @@ def volLoopStop : Nat → List Meta → List Meta
   | _, [] => []
   | rem, m :: r => if m.size < rem then m :: volLoopStop (rem - m.size) r else []
 
-def totalSize (l : List Meta) : Nat := (l.map (·.size)).foldl (· + ·) 0
+/-- inputs on which the two loops cannot be told apart: once a segment does not fit, no later one fits -/
+def noLateFit : Nat → List Meta → Bool
+  | _, [] => true
+  | rem, m :: r => if m.size < rem then noLateFit (rem - m.size) r else r.all (fun x => !decide (x.size < rem))
+
+def totalSize (l : List Meta) : Nat := (l.map (·.size)).sum
 
 /-- `systemVolumeBytes - allowedVolumeBytes` if the pass is going to delete at all, else 0 -/
 def volExcess (limitGB counter : Nat) (system : Nat) : Nat :=
